@@ -550,7 +550,7 @@ func c17Recovered(c *core.Ctx, r *core.Reporter) {
 		if top.Parent() != nil || !(strings.HasPrefix(core.N(top), "handleExtensions") || core.N(top) == "addExtensionResults") {
 			continue
 		}
-		for _, fn := range core.WithAnon(top) {
+		for _, fn := range c.Region(top) { // literals, and finish handlers turned into methods / helpers
 			core.Instrs(fn, func(in ssa.Instruction) {
 				call, ok := in.(*ssa.Call)
 				if !ok {
